@@ -99,7 +99,8 @@ def gen_cases(ctx):
     gen = [[0, 0, 0], [2, 0, 0], [2.5, 1.5, 0], [-0.25, 1, 0]]
     cube = [[0, 0, 0], [1, 0, 0], [1, 1, 0], [0, 1, 0], [0, 0, 1], [1, 0, 1], [1, 1, 1], [0, 1, 1]]
     ppd = [[p[0] + 0.25 * p[1] + 0.5 * p[2], 1.5 * p[1] + 0.25 * p[2], 0.25 * p[0] + 1.25 * p[2]] for p in cube]
-    ghex = [[0, 0, 0], [1, 0, 0], [1.25, 1.25, 0], [0, 1, 0], [0, 0, 1], [1.25, 0, 1.25], [1.5, 1.5, 1.5], [-0.25, 1, 1]]
+    # planar-faced, non-parallelepiped hexahedron (skewed frustum)
+    ghex = [[0, 0, 0], [2, 0, 0], [2, 2, 0], [0, 2, 0], [0.5, 0.25, 1], [1.5, 0.25, 1], [1.5, 1.25, 1], [0.5, 1.25, 1]]
     tri = [[0, 0, 0], [2, 0.25, 0], [0.5, 1.5, 0]]
     tet = [[0, 0, 0], [1, 0.25, 0], [0.25, 1, 0.125], [0.125, 0.25, 1]]
     pri = [[0, 0, 0], [1, 0.25, 0.25], [0.125, 1, 0.25], [0.5, 0.5, 1.25], [1.5, 0.75, 1.5], [0.625, 1.5, 1.5]]
@@ -124,10 +125,17 @@ def gen_cases(ctx):
     return cases
 
 
+ORIENT = {"v": "tables"}
+
+
 def stable_key(r):
     k = r["key"]
     if k.startswith("locate-crash") and "shape mismatch" in r["what"]:
         return "locate-crash:affine-branch:points-in-element==dim"
+    if (k.startswith("locate-value") and "gmsh" in k and ": got 0, exact" in r["what"]
+            and not ("after-symmetry" in k and ORIENT["v"] == "tables" and k.split(":")[1].startswith(("TETRA", "HEXA", "PRISM")))):
+        # a point of the closed mesh that no element claimed (candidate elements = those around the nearest mesh node)
+        return "locate-miss:nearest-node-candidates:%s" % k.split(":")[1]
     if k.startswith("locate-value"):
         el, tag = k.split(":")[1], ":".join(k.split(":")[2:])
         if "mirrored" in tag or "after-symmetry" in tag:
@@ -159,6 +167,7 @@ def run(ctx):
         ctx.obligation("translate", False, str(ex))
         ctx.violation("translate", "translator rejected the source: %s" % ex, {"construct": str(ex)}, found_input=False)
         return
+    ORIENT["v"] = orient
     ctx.obligation("translate", True, "%d element classes; Eval form %s (line %d); Get_pointsInElem rows %s / normals %s" % (len(FT), ev_form, ev_line, trim, orient))
     ctx.cov["eval_form"] = ev_form
     ctx.cov["pointin_form"] = [trim, orient]
